@@ -767,7 +767,8 @@ class World:
             auth, _why2 = stdverify.verify_input(mtx, idx, self.spent(), authorisation_only=True)
         except Exception:
             expect = auth = False
-        book = (now is not None and now == sg["digest"] and inp.spk == sg["spk"] and not sg["tampered"] and inp.annex == sg["annex"])
+        book = (now is not None and now == sg["digest"] and inp.spk == sg["spk"] and not sg["tampered"] and inp.annex == sg["annex"]
+                and all(self.ref_digest(idx, inp.algo(), h) == d for h, d in sg.get("all", [])))
         if book and not expect:
             fail("C06", "H3", f"reference_and_bookkeeping_disagree_{inp.kind}", "harness: the signed state is unchanged per the bookkeeping but the reference finds the spend not authorised")
         tr.oracle("H3")
@@ -904,6 +905,12 @@ class World:
         if not ref_ok:
             fail("C05", "H5", "reference_rejects_its_own_spend", f"harness: reference-signed {k} spend not authorised per the reference itself: {why}")
             return
+        if lib_ok:
+            # the spend is now a signed state like one made by the library's own signers: later verify steps judge it after edits
+            w = ti.witness.items if ti.witness is not None else []
+            pos = 1 if k in ("p2wsh_ms", "p2sh_p2wsh_ms") else 0
+            inp.signed = {"digest": self.ref_digest(idx, algo, used[0]), "ht": used[0], "spk": inp.spk, "annex": inp.annex, "tampered": False, "item0": (w[pos] if len(w) > pos else None),
+                          "all": [(h, self.ref_digest(idx, algo, h)) for h in sorted(set(used))]}
         if not lib_ok:
             mixed = "_mixed_hash_types" if len(set(used)) > 1 else ""
             fail("C05", "H5", f"verification_digest_{algo}{mixed}", f"a {k} spend whose signature(s) were made by the reference over the specification digests for hash types {[hex(h) for h in used]} is reported invalid by verify_input({idx}){note}: the digest used in verification differs from the specification")
@@ -1421,7 +1428,11 @@ def generate(ch, tier, prop):
             r = ch.random()
             if r < 0.25 and budget:
                 budget -= 1
-                steps.append({"op": "sign", "i": ch.randrange(4), "ht": ch.choice([0, 0, 1, 2, 3, 0x81, 0x82, 0x83]), "pick": ch.randrange(1000), "via_sign_input": ch.chance(0.3), "partial_first": ch.chance(0.3), "extra_signer": ch.chance(0.25)})
+                if ch.chance(0.25):
+                    # signed by other software with any hash type (the library's ECDSA signers only make SIGHASH_ALL signatures)
+                    steps.append({"op": "refsign", "i": ch.randrange(4), "hts": [ch.choice([1, 2, 3, 0x81, 0x82, 0x83])] * 3 if ch.chance(0.7) else [ch.choice([0, 1, 2, 3, 0x81, 0x82, 0x83]) for _ in range(3)], "pick": ch.randrange(1000)})
+                else:
+                    steps.append({"op": "sign", "i": ch.randrange(4), "ht": ch.choice([0, 0, 1, 2, 3, 0x81, 0x82, 0x83]), "pick": ch.randrange(1000), "via_sign_input": ch.chance(0.3), "partial_first": ch.chance(0.3), "extra_signer": ch.chance(0.25)})
                 if ch.chance(0.5) and vbudget:
                     vbudget -= 1
                     steps.append({"op": "verify", "i": steps[-1]["i"], "reps": ch.choice([1, 2]), "cross": ch.chance(0.3)})
@@ -1447,7 +1458,7 @@ def generate(ch, tier, prop):
         tbudget = ch.randrange(1, 5)
         for st in steps:
             out.append(st)
-            if st["op"] == "sign" and tbudget and ch.chance(0.7):
+            if st["op"] in ("sign", "refsign") and tbudget and ch.chance(0.7):
                 tbudget -= 1
                 t = {"op": "transmit", "i": st["i"]}
                 if not fault_free and ch.chance(0.8):
@@ -1556,6 +1567,39 @@ def enumerate_plans(tier, prop, seed):
                 spec["m"] = n
             yield {"version": 2, "locktime": 0, "inputs": [spec], "outputs": [{"amount": 90000, "spk": tm.spk_p2wpkh(bytes(20)).hex()}],
                    "steps": [{"op": "sign", "i": 0, "ht": 1, "pick": v}, {"op": "transmit", "i": 0, "mut": {"kind": "retag", "a": v, "b": v, "region": "w", "undefined": True}}], "enum": "retag-undefined-bits"}
+    # signed, then one committed (or uncommitted) field changed, then verified: every output type x every hash type x edits of the OTHER
+    # input's outpoint / sequence (what hashPrevouts / hashSequence commit to depends on the hash type); the other edits rotate through the
+    # hash types in the quick tier and are a full product in the thorough tier. The expected verdict is the reference's.
+    r2 = plan_rng(seed, "enum-c06-edits")
+    EDS = [{"e": "in_outpoint", "i": 1, "txid": "ab" * 32, "vout": 1}, {"e": "in_sequence", "i": 1, "v": 5}, {"e": "in_outpoint", "i": 0, "txid": "cd" * 32, "vout": 0}, {"e": "in_sequence", "i": 0, "v": 7},
+           {"e": "out_amount", "j": 0, "v": 89999}, {"e": "out_amount", "j": 1, "v": 4999}, {"e": "out_script", "j": 1, "spk": tm.spk_p2wpkh(b"\x01" * 20).hex()},
+           {"e": "out_append", "v": 1, "spk": tm.spk_p2pkh(b"\x02" * 20).hex()}, {"e": "out_remove", "j": 1}, {"e": "locktime", "v": 1}, {"e": "version", "v": 1}, {"e": "spent_amount", "i": 0, "v": 100001},
+           {"e": "in_append", "spec": {"kind": "p2wpkh", "txid": "ef" * 32, "vout": 0, "sequence": 0xFFFFFFFF, "amount": 700, "keys": [0]}}]
+    for ki, kind in enumerate(KINDS):
+        hts = [1, 2, 3, 0x81, 0x82, 0x83] + ([0] if kind in ("p2tr_key", "p2tr_script") else [])
+        for hi, ht in enumerate(hts):
+            for ei, ed in enumerate(EDS):
+                if tier == "quick" and ei >= 2 and (ki + hi + ei) % len(hts) != 0:
+                    continue
+                n = 1 if kind in ("p2pkh", "p2wpkh", "p2sh_p2wpkh", "p2tr_key") else 2
+                spec = {"kind": kind, "txid": "%064x" % r2.getrandbits(256), "vout": 0, "sequence": 0xFFFFFFFE, "amount": 100000, "keys": r2.sample(range(8), n)}
+                if n > 1 or kind == "p2tr_script":
+                    spec["m"] = n
+                    if kind == "p2tr_script":
+                        spec["internal"] = r2.randrange(8)
+                other = {"kind": "p2wpkh", "txid": "%064x" % r2.getrandbits(256), "vout": 2, "sequence": 0xFFFFFFFD, "amount": 5000, "keys": [r2.randrange(8)]}
+                # the signed input is the first or the second of the two
+                first = (ki + hi + ei) % 2 == 0
+                inputs = [spec, other] if first else [other, spec]
+                si = 0 if first else 1
+                e2 = dict(ed, op="edit")
+                if "i" in e2 and ed["e"] != "in_append":
+                    e2["i"] = si if ed["i"] == 0 else 1 - si
+                if "j" in e2:
+                    e2["j"] = si if ed["j"] == 0 else 1 - si
+                yield {"version": 2, "locktime": 0, "inputs": inputs, "outputs": [{"amount": 90000, "spk": tm.spk_p2wpkh(bytes(20)).hex()}, {"amount": 5000, "spk": tm.spk_p2pkh(bytes(20)).hex()}],
+                       "steps": [({"op": "sign", "i": si, "ht": ht, "pick": ei} if ht == 1 or kind in ("p2tr_key", "p2tr_script") else {"op": "refsign", "i": si, "hts": [ht], "pick": ei}),
+                                 {"op": "verify", "i": si}, e2, {"op": "verify", "i": si, "cross": True}], "enum": "signed-then-edited"}
     # degenerate signature values in every signature slot: every variant x every kind
     for kind in KINDS:
         for v in range(5):
